@@ -94,9 +94,12 @@ def run(ctx):
         jobs.append(j)
     hashseeds = [(ctx.seed + i) % 4294967295 for i in range(len(jobs))]
     results = sc.run_workers("rw_worker", [{"jobs": [j]} for j in jobs], timeout=DEADLINE, jobs=6,
-                             hashseeds=hashseeds)
+                             hashseeds=hashseeds, max_timeouts=2)
     rep.lap("parallel_runs")
     for cs, j, (status, res), hs in zip(cases, jobs, results, hashseeds):
+        if status == "skipped":
+            rep.bump("skipped_after_timeouts")
+            continue
         d = describe(cs)
         d.update({"set": cs["set"], "hashseed": hs})
         rep.case(d, nontrivial=cs["n_jobs"] > 1)
